@@ -235,6 +235,127 @@ def size_walks(c, prop, walks, steps=120):
         raise Inconclusive("real-size walks ran no compaction")
 
 
+COMPACTORS = dict(Keys="{1, 2}", MaxLevel="2", Compactors="{0, 1}", MinL0L0="2", MaxId="8", StaleTargets="TRUE",
+                  BaseSize="1", Mult="2", FillChecks="TRUE", Drops="TRUE", Clamp="TRUE")
+COMPACTORS_INV = ("StatusExact", "InputsDisjoint", "InputsLive", "Disjoint", "OutputSafe", "NoJump")
+
+
+def compactors_mc(c, quick, sensitivity=True):
+    """Compactors.tla: every interleaving of capture / fill / finish of two compactors with flushes, level
+    targets transcribed from levelTargets. Repaired behaviour: all invariants; with the targets trusted at
+    fill time (the code before the second C12 repair) TLC has to find the jump."""
+    d = vlib.stage_specs(["lsm"])
+    consts = dict(COMPACTORS, MaxId=("6" if quick else "8"))
+    open(os.path.join(d, "C.cfg"), "w").write(cfg_text("Spec", consts, COMPACTORS_INV))
+    res = vlib.run_tlc(d, "Compactors_MC", "C.cfg", timeout=3000, workers=None)
+    c.add_tlc("Compactors (stale targets, fill-time check, clamp)", res)
+    vlib.require_tlc_ok(res, "Compactors")
+    if sensitivity:
+        d = vlib.stage_specs(["lsm"])
+        consts = dict(COMPACTORS, MaxId=("6" if quick else "7"), FillChecks="FALSE")
+        open(os.path.join(d, "C.cfg"), "w").write(cfg_text("Spec", consts, ("NoJump",)))
+        res = vlib.run_tlc(d, "Compactors_MC", "C.cfg", timeout=3000, workers=None)
+        c.cov["tlc_runs"].append({"config": "Compactors, captured targets trusted at fill time (unrepaired)",
+                                  "mode": "exhaustive (expected counterexample)", "violated": res.violation,
+                                  "distinct_states": res.distinct, "wall_s": round(res.wall, 1)})
+        if res.violation != "NoJump":
+            raise Inconclusive("Compactors (unrepaired): expected a counterexample to NoJump, got %r" % (res.violation or res.ok))
+
+
+def _validate_compactors(trace, timeout=900):
+    d = vlib.stage_specs(["lsm"])
+    import shutil, re
+    shutil.copy(trace, os.path.join(d, "trace.ndjson"))
+    res = vlib.run_tlc(d, "CompactorsTrace", "CompactorsTrace.cfg", workers=1, dfs_queue=True, timeout=timeout, deadlock=True)
+    if res.ok:
+        return True, None, None, res
+    out = res.error_trace or res.out
+    ls = re.findall(r"\bl = (\d+)", out)
+    line = int(ls[-1]) - 1 if ls else None
+    if res.violation == "Conforms":
+        bads = [b for b in re.findall(r'bad = "(\w+)"', out) if b != "none"]
+        return False, bads[0] if bads else "Conforms", line, res
+    if res.violation:
+        return False, res.violation, line, res
+    m = re.search(r'"REJECTED_AT", (\d+)', out)
+    if m:
+        return False, "NotABehaviour", int(m.group(1)), res
+    raise Inconclusive("CompactorsTrace did not run: %s" % out[-1500:])
+
+
+def compactors_traces(c, prop, runs, steps=70, scenario=True):
+    """Concurrent production compactions (csreplay: capture / fill up to the gate compact.beforeManifest /
+    finish, interleaved over three compactors with flushes) validated by TLC against Compactors.tla."""
+    binp = vlib.go_build("cmd/csreplay")
+    d = vlib.scratch("cs-")
+    env = vlib.goenv()
+    env["TMPDIR"] = d
+    jobs = []
+    if scenario:
+        jobs.append(("stale-targets scenario", ["-scenario", "stale"]))
+    nfiles = max(1, min(8, runs // 8))
+    per = (runs + nfiles - 1) // nfiles
+    for i in range(nfiles):
+        jobs.append(("random seed %d" % (c.seed * 100 + i), ["-runs", str(per), "-steps", str(steps), "-seed", str(c.seed * 100 + i)]))
+    events = 0
+    for label, args in jobs:
+        tr = os.path.join(d, "t%d.ndjson" % jobs.index((label, args)))
+        rc, out, err, _ = vlib.run([binp] + args + ["-out", tr], timeout=1200, env=env)
+        if rc != 0:
+            raise Inconclusive("csreplay failed (%s): %s" % (label, err[-1500:]))
+        n = sum(1 for _ in open(tr))
+        events += n
+        ok, rule, line, res = _validate_compactors(tr)
+        c.cov["tlc_runs"].append({"config": "trace:CompactorsTrace " + label, "events": n, "accepted": ok,
+                                  "distinct_states": res.distinct, "wall_s": round(res.wall, 1)})
+        if not ok:
+            # a second recording with the same seed has to be rejected for the same rule
+            tr2 = tr + ".again"
+            rc, _, err, _ = vlib.run([binp] + args + ["-out", tr2], timeout=1200, env=env)
+            ok2, rule2, line2, _ = _validate_compactors(tr2) if rc == 0 else (True, None, None, None)
+            if ok2 or rule2 != rule:
+                log("CompactorsTrace rejection did not reproduce: %s at %s / %s" % (rule, line, rule2))
+                continue
+            evs = [json.loads(x) for x in open(tr)]
+            ctx = [{k: v for k, v in e.items() if k not in ("tabs",)} for e in evs[max(0, (line or 1) - 6):(line or 1) + 1]]
+            c.violation("lsm:compactors %s (%s)" % (rule, "scenario stale" if "-scenario" in args else "random walk"),
+                        ctx, {"tool": "csreplay", "args": args, "validate": "CompactorsTrace.cfg", "line": line})
+        if "-scenario" in args:
+            note = [json.loads(x) for x in open(tr) if '"note"' in x]
+            if note and note[0]["get_before"] != note[0]["get_after"]:
+                c.violation("lsm:compactors readChanged.resurrected (stale targets: L0->Lbase jumped over a level filled meanwhile)",
+                            note[0], {"tool": "csreplay", "args": args})
+    # binding: a corrupted record has to be rejected
+    src = os.path.join(d, "t%d.ndjson" % (len(jobs) - 1))
+    evs = [json.loads(x) for x in open(src)]
+    idx = [i for i, e in enumerate(evs) if e["ev"] == "fill" and e.get("picked") and e.get("top")]
+    rej = 0
+    tried = 0
+    for how in ("top", "base", "busy"):
+        es = json.loads(json.dumps(evs))
+        if how == "top" and idx:
+            es[idx[0]]["top"] = es[idx[0]]["top"][:-1] + [es[idx[0]]["top"][-1] + 1000]
+        elif how == "base":
+            k = [i for i, e in enumerate(es) if e["ev"] == "capture"]
+            if not k:
+                continue
+            es[k[0]]["base"] = 3 - es[k[0]]["base"]
+        elif how == "busy" and idx:
+            es[idx[0]]["busy"] = []
+        else:
+            continue
+        tried += 1
+        bad = os.path.join(d, "bad_%s.ndjson" % how)
+        open(bad, "w").write("".join(json.dumps(e) + "\n" for e in es))
+        ok, rule, line, _ = _validate_compactors(bad)
+        rej += (not ok)
+    c.cov["engines"].append({"engine": "CompactorsTrace (TLC validates recorded concurrent compactions)", "traces": len(jobs),
+                             "events": events, "corrupted_traces_rejected": "%d/%d" % (rej, tried)})
+    c.cov["traces_validated_against_impl"] += len(jobs)
+    if tried == 0 or rej != tried:
+        raise Inconclusive("CompactorsTrace accepted a corrupted trace (%d/%d rejected)" % (rej, tried))
+
+
 def model_check_install(c, quick):
     """LSMInstall.tla: the two-step installation of a compaction result against a concurrent read."""
     d = vlib.stage_specs(["lsm"])
